@@ -125,6 +125,9 @@ def program(P, io=True, extra_directives=(), src_clauses=None):
         out.append(d)
     for c in (src_clauses if src_clauses is not None else P.get("src_clauses") or P["clauses"]):
         out.append(clause(c))
+    for sc in P.get("subsume", []):     # subsumptive clauses: rel(a1) <= rel(a2) :- body.
+        out.append("%s(%s) <= %s(%s) :- %s." % (sc["rel"], ", ".join(term(a) for a in sc["a1"]), sc["rel"],
+                                                 ", ".join(term(a) for a in sc["a2"]), ", ".join(literal(l) for l in sc["body"])))
     return "\n".join(out) + "\n"
 
 # ---- values <-> fact-file text -------------------------------------------------
